@@ -31,6 +31,8 @@ RULE = (
     "encoded by puresnmp and decoded by x690 AND by the independent codec, and encoded by the "
     "independent codec and decoded by puresnmp. Record-only contracts on the constructors run "
     "alongside. Non-trivial: every evaluation; distinct by (class, value)."
+    " Every IpAddress whose four octets read as text (digits, hex letters, colon, dot, blank:"
+    " 390625 addresses) is decoded and re-encoded."
 )
 ASSUMPTIONS = [
     "TimeTicks are hundredths of a second (RFC 2578 7.1.8); a timedelta that is not a multiple of 10 ms may be floored or rounded",
